@@ -255,6 +255,9 @@ func runCase(e *Env, idx int, c *Case, limit time.Duration) (*Out, error) {
 	if err != nil {
 		return nil, fmt.Errorf("schema: %w", err)
 	}
+	if msg := s.checkRendering(); msg != "" {
+		out.Harness = msg
+	}
 	vm := newMatcher(s)
 	lv := [][]string{}
 	{
